@@ -40,8 +40,7 @@ def import_round(rounddir, first, notes_path=None, initial_dir=None):
             except Exception:
                 m = {}
             meta = {"property": p, "breaks": m.get("what") or m.get("breaks") or "", "needs": m.get("needs", ""),
-                    "origin": "independent sub-agent (round 2: asked for hard-to-notice changes, told which were already known) given "
-                              "only the property text and a scratch worktree",
+                    "origin": "independent sub-agent given only the property text and a scratch worktree",
                     "agent_ran": m.get("ran") or m.get("agent_ran") or []}
             if src.endswith(".rebased.diff"):
                 meta["rebased"] = "the agent's patch no longer applied after a later fix: commit touched the same lines; the same change was re-made on HEAD"
@@ -111,7 +110,8 @@ def readme(all_ids):
 Each directory holds `patch.diff` (applies to /repo HEAD), `demo.py` (fails with the change, passes without) and `meta.json`.
 All were written by sub-agents that saw only the text of one property and a scratch worktree (ids -1, -2: round 1; -3..-5: round 2 and -6..-8:
 round 3, where the agents were asked for changes that are hard to notice and were told which changes were already known;
--9..-11: round 4, realistic regressions of the kind refactoring, modernising and data updates produce).  Each was confirmed with
+-9..-11: round 4 and -12..-14: round 5, realistic regressions of the kind refactoring, modernising, performance work and data
+updates produce).  Each was confirmed with
 `harness/mutant.py confirm` (42 tests pass with the change; the demonstration fails with it and passes on the clean tree) and run against
 the property's check with `harness/mutant.py run` (scratch worktree via `PT_REPO`, /repo itself untouched).  `harness/seeded.py rerun`
 repeats all of that against the current checks and rewrites this file.
